@@ -17,7 +17,7 @@ func (n NativeLenFn) Call(i *Interpreter, arguments []interface{}) (interface{},
 	}
 
 	// Return the length of the array
-	return len(array), nil
+	return float64(len(array)), nil
 }
 
 func (n NativeLenFn) Arity() int {
